@@ -244,7 +244,7 @@ func runCheck(prop, tier string, repo, hdir string, jobs int, seed int64) int {
 		if ts.Skip {
 			continue
 		}
-		cfg := &interp.Config{Solver: "z3-new", Solver2: "z3", FeasTimeoutMs: 20000, AssertTimeout: 120 * time.Second,
+		cfg := &interp.Config{Solver: "z3-new", Solver2: "z3", FeasTimeoutMs: 4000, AssertTimeout: 120 * time.Second,
 			MaxPaths: ts.MaxPaths, Params: ts.Params, CrossCheck: tier == "thorough", Seed: seed, WitnessEvery: 1}
 		if cfg.Params == nil {
 			cfg.Params = map[string]int64{}
